@@ -157,6 +157,8 @@ def worker_main(pid, tier, seed, widx, outpath, replay=None):
                 if bad:
                     last_fail["scenario"] = scenario
                     last_fail["bad"] = bad
+                    if "first" not in last_fail:
+                        last_fail["first"] = (scenario, bad)
                     raise AssertionError(bad[0][0])
 
             try:
@@ -168,11 +170,20 @@ def worker_main(pid, tier, seed, widx, outpath, replay=None):
             except hypothesis.errors.FailedHealthCheck as e:
                 stats["notes"].append("generator health check failed: %s" % str(e)[:300])
             if last_fail:
-                scenario = last_fail["scenario"]
-                ok, sig, detail = confirm(mod, env, scenario, known, need_all)
-                if not ok and last_fail["bad"][0][0].startswith("memory-safety/liveness:"):
-                    # a crash/assert really happened once; timing-dependent ones get more attempts before being set aside
-                    ok, sig, detail = confirm(mod, env, scenario, known, need_all, tries=10)
+                # the shrunk example first; shrinking a timing-sensitive failure tends to end on a marginal example, so if that
+                # one does not reproduce the example that failed first (as generated) gets the same confirmation
+                candidates = [(last_fail["scenario"], last_fail["bad"])]
+                if _canon(last_fail["first"][0]) != _canon(last_fail["scenario"]):
+                    candidates.append(last_fail["first"])
+                ok = False
+                for scenario, bad in candidates:
+                    ok, sig, detail = confirm(mod, env, scenario, known, need_all)
+                    if not ok and bad[0][0].startswith("memory-safety/liveness:"):
+                        # a crash/assert really happened once; timing-dependent ones get more attempts before being set aside
+                        ok, sig, detail = confirm(mod, env, scenario, known, need_all, tries=10)
+                    if ok:
+                        break
+                scenario = scenario if ok else last_fail["scenario"]
                 if ok:
                     path = save_violation_case(pid, json.dumps(scenario, indent=1, sort_keys=True), ext=".json")
                     stats["violations"].append({"signature": sig, "detail": detail[:1500], "replay": path})
